@@ -17,6 +17,9 @@ import time
 VERIF = os.path.dirname(os.path.dirname(os.path.abspath(__file__)))
 REPO = os.environ.get('VERIF_REPO', '/repo')
 BUILD = os.path.join(VERIF, 'build')
+if REPO != '/repo':
+    # scratch copies of the repository (mutation experiments) get their own cache, removed with the copy
+    BUILD = os.path.join(VERIF, 'build', 'alt-' + hashlib.sha1(REPO.encode()).hexdigest()[:10])
 SRC = os.path.join(VERIF, 'src')
 GUARD = 'HEX_VERIF'
 
